@@ -19,6 +19,8 @@ import (
 	"github.com/trustbloc/sidetree-core-go/pkg/api/protocol"
 	"github.com/trustbloc/sidetree-core-go/pkg/api/txn"
 	"github.com/trustbloc/sidetree-core-go/pkg/batch"
+	"github.com/trustbloc/sidetree-core-go/pkg/dochandler"
+	"github.com/trustbloc/sidetree-core-go/pkg/processor"
 	"github.com/trustbloc/sidetree-core-go/pkg/versions/1_0/operationparser"
 
 	"verifharness/hx"
@@ -140,6 +142,22 @@ func runSchedule(s *schedule) (evs []wev, ops map[string]opInfo, accepted map[st
 		p1.MaxOperationCount = s.Max2
 		pc = &upgradeClient{inner: hx.NewClient(&handlerVersion{p0, &countingHandler{h0, &prepareCalls}}, &handlerVersion{p1, &countingHandler{h1, &prepareCalls}}), upgraded: &upgraded}
 	}
+	// transient failures of the protocol client: the n-th Get (version lookup for a cut batch) fails
+	getCalls := 0
+	pc = &getFaultClient{inner: pc, fail: func() bool {
+		if !faultsOn {
+			return false
+		}
+		getCalls++
+		for _, f := range s.Faults {
+			if f == fmt.Sprintf("get:%d", getCalls) {
+				stats["fault:protocol.get"]++
+				l.add(wev{Kind: "pc.get", N: getCalls, Err: "injected"})
+				return true
+			}
+		}
+		return false
+	}}
 	w, err = batch.New(hx.Namespace, &writerCtx{pc: pc, a: anchor, q: q})
 	if err != nil {
 		return nil, nil, nil, nil, err
@@ -193,6 +211,20 @@ func runSchedule(s *schedule) (evs []wev, ops map[string]opInfo, accepted map[st
 		tick(true)
 	}
 	return l.evs, ops, accepted, stats, nil
+}
+
+// getFaultClient makes chosen Get calls of the protocol client fail (Current keeps working).
+type getFaultClient struct {
+	inner protocol.Client
+	fail  func() bool
+}
+
+func (c *getFaultClient) Current() (protocol.Version, error) { return c.inner.Current() }
+func (c *getFaultClient) Get(t uint64) (protocol.Version, error) {
+	if c.fail() {
+		return nil, errInjected
+	}
+	return c.inner.Get(t)
 }
 
 // upgradeClient reports version 0 as the current protocol version until the run's upgrade action.
@@ -273,6 +305,9 @@ func randomSchedule(r *hx.Rng) *schedule {
 		}
 		at := r.Intn(len(s.Actions) + 1)
 		s.Actions = append(append(append([]string{}, s.Actions[:at]...), "upgrade"), s.Actions[at:]...)
+	}
+	if r.Chance(1, 4) {
+		s.Faults = append(s.Faults, fmt.Sprintf("get:%d", 1+r.Intn(6)))
 	}
 	for k := 0; k < r.Intn(3); k++ {
 		if r.Bool() {
@@ -465,12 +500,14 @@ func checkC16(c *hx.Ctx) {
 	})
 	// ---------- Mode A with the REAL OperationHandler (slice)
 	realHandlerSlice(c)
+	handlerFrontSlice(c)
 	// ---------- Mode B in a child process under the race detector
 	modeB(c)
 	for _, pnt := range c16Points {
 		c.Floor("inject:"+pnt, 1)
 	}
 	c.Floor("fault:anchor", 10)
+	c.Floor("fault:protocol.get", 10)
 	c.Floor("fault:cas.write.1", 10)
 	c.Floor("fault:cas.write.2", 5)
 	c.Floor("nack_followed_by_successful_retry", 10)
@@ -481,6 +518,7 @@ func checkC16(c *hx.Ctx) {
 	c.Floor("batches_version_0", 10)
 	c.Floor("batches_version_100", 10)
 	c.Floor("real_handler_runs", 10)
+	c.Floor("document_handler_front_runs", 10)
 	c.Floor("real_handler_runs_with_not_yet_valid_operation", 5)
 	c.Floor("real_handler_batches_read_back", 50)
 }
@@ -1053,4 +1091,93 @@ func stressMain(args []string) {
 	res.OrderHashes = len(orders)
 	b, _ := json.Marshal(res)
 	_ = os.WriteFile(args[2], b, 0o644)
+}
+
+// ---------------------------------------------------------------------------------------------
+// document handler in front of the writer: operations enter through DocumentHandler.ProcessOperation, the caller naming the
+// protocol version by ANY time inside its validity period (not only by its genesis time). Operations of one version must
+// end up under one queue key: no version boundary where there is none (E5), right handler (E4), exactly once (E1).
+
+func handlerFrontSlice(c *hx.Ctx) {
+	r := c.Rng("handler-front")
+	nRuns := c.N(60, 1200)
+	for run := 0; run < nRuns; run++ {
+		if c.Violations() > 8 {
+			return
+		}
+		c.Eval()
+		l := &wlog{}
+		yield := func(string) {}
+		q := newRecQueue(l, yield)
+		anchor := &recAnchor{log: l, yield: yield}
+		p0 := c13Proto(ref.SHA256)
+		p0.MaxOperationCount = uint(2 + r.Intn(3))
+		p1 := p0
+		p1.GenesisTime = 100
+		cas := hx.NewMemCAS()
+		v0, v1 := hx.NewVersion(p0, hx.VersionOpts{CAS: cas}), hx.NewVersion(p1, hx.VersionOpts{CAS: cas})
+		v0.Handler = &recRealHandler{inner: v0.Handler, log: l, yield: yield, ver: 0}
+		v1.Handler = &recRealHandler{inner: v1.Handler, log: l, yield: yield, ver: 100}
+		twoVers := r.Bool()
+		var pc *hx.Client
+		if twoVers {
+			pc = hx.NewClient(v0, v1)
+		} else {
+			pc = hx.NewClient(v0)
+		}
+		w, err := batch.New(hx.Namespace, &writerCtx{pc: pc, a: anchor, q: q})
+		if err != nil {
+			c.Inconclusive("batch.New: %v", err)
+			return
+		}
+		dh := dochandler.New(hx.Namespace, nil, pc, w, processor.New("verif", hx.NewOpStore(), pc), hx.NopMetrics{})
+		ops := map[string]opInfo{}
+		accepted := map[string]bool{}
+		n := 3 + r.Intn(8)
+		vt := uint64(r.Intn(3))
+		var descr []string
+		for k := 0; k < n; k++ {
+			_, cr, err := NewCDid(r.Split(fmt.Sprint("hf", run, k)), ref.SHA256, []string{"P-256"}, 300, false, []interface{}{patchAddKeys(genKeyEntry(r, "k1"))}, nil, "o", "")
+			if err != nil {
+				panic(err)
+			}
+			vt += uint64(r.Intn(40)) // version times only grow; with two versions they cross the genesis time of the second
+			if !twoVers && vt >= 100 {
+				vt = 99
+			}
+			ver := uint64(0)
+			if twoVers && vt >= 100 {
+				ver = 100
+			}
+			id := string(cr.Req)
+			ops[id] = opInfo{ver, suffixOf(cr.Req, ref.SHA256), false}
+			_, e := dh.ProcessOperation(cr.Req, vt)
+			if e != nil {
+				c.Violation(fmt.Sprintf("C16 (document handler in front) a valid create named by version time %d was refused: %v", vt, e), map[string]interface{}{"request": id})
+				return
+			}
+			accepted[id] = true
+			descr = append(descr, fmt.Sprintf("create@vt%d", vt))
+			if r.Chance(1, 3) {
+				force := r.Chance(1, 3)
+				l.add(wev{Kind: "step.call", Force: force})
+				w.VerifProcessAvailable(force)
+				l.add(wev{Kind: "step.ret"})
+			}
+		}
+		for k := 0; k <= n+1; k++ {
+			l.add(wev{Kind: "step.call", Force: true})
+			w.VerifProcessAvailable(true)
+			l.add(wev{Kind: "step.ret"})
+		}
+		if problems := checkWriterLog(l.evs, ops, accepted, int(p0.MaxOperationCount), true); len(problems) > 0 {
+			for i := range problems {
+				problems[i] = trunc600(problems[i])
+			}
+			c.Violation("C16 (document handler in front) "+strings.Join(problems, "; ")+fmt.Sprintf(" :: ops=%v max=%d two-versions=%v", descr, p0.MaxOperationCount, twoVers), map[string]interface{}{"ops": descr})
+			return
+		}
+		c.Count("document_handler_front_runs")
+		c.Distinct(fmt.Sprintf("hf|%v|%d|%v", descr, p0.MaxOperationCount, twoVers))
+	}
 }
